@@ -24,7 +24,7 @@ TOTAL_MEM_GB = int(os.environ.get("VERIF_MEM_GB", "52"))
 JOBS = int(os.environ.get("VERIF_JOBS", "16"))
 
 def cfg_include():
-    for d in (os.path.join(REPO, "_build", "include"), os.path.join(VERIF, ".work", "cfg", "include")):
+    for d in (os.path.join(REPO, "_build", "include"), "/repo/_build/include", os.path.join(VERIF, ".work", "cfg", "include")):
         if os.path.exists(os.path.join(d, "event2", "event-config.h")) and os.path.exists(os.path.join(d, "evconfig-private.h")):
             return d
     sys.stderr.write("no generated config headers (event2/event-config.h); run MANIFEST.setup_cmd\n")
